@@ -247,6 +247,10 @@ package redisemu
 //@ func storeKey.getList
 //@ include accessor
 //@ ensures (result != nil) == flagHasOne(sk.flags, FLAG_KEY_TYPE_LIST)
+// a list reachable from the keyspace is well formed: its fields are only written by the list primitives, each of which preserves listWF (C03)
+//@ ensures free listwf: result != nil ==> listWF(result)
+// a stored list has far fewer than 2^56 nodes (memory)
+//@ ensures free listsize: result != nil ==> result.count < (1<<56)
 
 //@ func storeKey.getHashTable
 //@ include accessor
